@@ -103,6 +103,7 @@ typedef struct Plan {
 	int64_t sched_seed, net_seed, ent_c, ent_s, plan_seed;
 	int64_t stay_num, stay_den;
 	int64_t seg_style, max_chunk, max_lat_ns, short_write, eagain, capacity;
+	int64_t seg_late;
 	int64_t skew_c, skew_s;
 	int64_t jump_node, jump_at_ns, jump_delta_s;
 	int64_t interpose;
